@@ -471,6 +471,37 @@ fn systematic(rng: &mut Rng, idx: u64, t: &mut Trace) {
     }
 }
 
+/// C10 in the RIP emulation: mouse regions and buttons keep a host command string for the front end; `^x` in it
+/// stands for a control character, and what follows the caret may be anything.
+pub fn gen_c10_rip(rng: &mut Rng) -> Trace {
+    let mut t = Trace::new("C10", "term");
+    t.cfg.emu = "rip".into();
+    t.cfg.w = 80;
+    t.cfg.h = 25;
+    t.cfg.fuel = GFX_FUEL;
+    t.cfg.clock_ms = 1_700_000_000_000;
+    t.labels.push("emu=rip".into());
+    const AFTER_CARET: [u32; 16] = [b'0' as u32, b' ' as u32, b'?' as u32, b'@' as u32, b'A' as u32, b'M' as u32, b'[' as u32, b'^' as u32, b'~' as u32, 0x7f, 0xe9, 0xE000, 0xE03F, 0xE040, 0x1_F600, 0x10_FFFF];
+    for _ in 0..1 + rng.usize(4) {
+        if rng.chance(1, 3) {
+            t.rx(&rip_line(rng).bytes);
+            continue;
+        }
+        // |1M num x0 y0 x1 y1 clk clr res text   or   |1U x0 y0 x1 y1 hotkey flags res text
+        let head: &[u8] = if rng.chance(1, 2) { b"!|1M0000001010100000" } else { b"!|1B0A0A010000000F080F070F0F000F00000000000000|1U0000101000000<>label<>" };
+        t.events.push(Ev::Rx { hex: to_hex(head) });
+        t.events.push(Ev::Rx { hex: to_hex(b"go") });
+        for _ in 0..1 + rng.usize(3) {
+            t.events.push(Ev::Rx { hex: to_hex(b"^") });
+            t.events.push(Ev::RxWide { cps: vec![*rng.pick(&AFTER_CARET)] });
+            t.events.push(Ev::Rx { hex: to_hex(b"x") });
+        }
+        t.events.push(Ev::Rx { hex: to_hex(b"|\n") });
+    }
+    t.events.push(Ev::Picture);
+    t
+}
+
 pub fn gen_c20(rng: &mut Rng, run: u64, thorough: bool) -> Trace {
     let mut t = Trace::new("C20", "term");
     t.cfg.w = 80;
